@@ -49,10 +49,11 @@ struct Stream {
 
 struct HashCall { size_t outlen; std::vector<uint8_t> in; };
 struct HashStub {
-    std::vector<HashCall> calls;
+    std::vector<HashCall> calls; bool dry = false;   // dry: record the request, write only the first 64 bytes (key lengths of 2^32 bytes and more)
     void fill(void* out, size_t outlen, const void* in, size_t inlen) {
         HashCall c; c.outlen = outlen; c.in.assign((const uint8_t*) in, (const uint8_t*) in + inlen);
         calls.push_back(c);
+        if (dry && outlen > 64) outlen = 64;
         uint8_t* o = (uint8_t*) out; uint32_t ctr = 0;
         while (outlen) {
             Sha256 s; s.update(&ctr, 4); s.update(in, inlen); uint8_t d[32]; s.final(d);
